@@ -242,6 +242,52 @@ theorem pyth_exponent_errors (value : Nat) (e : Int) (t q : Nat) :
       rw [hx]
       exact ⟨_, rfl⟩
 
+/-- **`pyth_price_with_confidence_to_price`: exact error conditions on the price / confidence pair.** A negative price, a
+confidence larger than the price (the exact lower bound `price − confidence` would be negative — it is NOT clamped to 0) and a
+`u64` overflow of the upper bound are errors; otherwise the two bounds are the conversions of exactly `price − confidence`
+and `price + confidence`. -/
+theorem pyth_confidence_errors (price : Int) (conf : Nat) (e : Int) (t q : Nat) (hp : price < 2 ^ 63) :
+    (pythWithConfidence price conf e t q = .error .midPrice ↔ price < 0) ∧
+    (pythWithConfidence price conf e t q = .error .minPrice ↔ 0 ≤ price ∧ (price : Int) < conf) ∧
+    (pythWithConfidence price conf e t q = .error .maxPrice ↔ 0 ≤ price ∧ (conf : Int) ≤ price ∧ 2 ^ 64 ≤ price + conf) ∧
+    (∀ mn mx, pythWithConfidence price conf e t q = .ok (mn, mx) →
+      0 ≤ price ∧ (conf : Int) ≤ price ∧
+      pythValueToDecimal (price.toNat - conf) e t q = .ok mn ∧ pythValueToDecimal (price.toNat + conf) e t q = .ok mx) := by
+  unfold pythWithConfidence
+  by_cases h1 : price < 0 ∨ ¬ price < 2 ^ 64
+  · rw [if_pos h1]
+    refine ⟨⟨fun _ => (by omega), fun _ => rfl⟩, ⟨fun h => (by cases h), fun h => (by omega)⟩, ⟨fun h => (by cases h), fun h => (by omega)⟩,
+      fun mn mx h => (by cases h)⟩
+  · rw [if_neg h1]
+    by_cases h2 : conf > price.toNat
+    · rw [if_pos h2]
+      refine ⟨⟨fun h => (by cases h), fun h => (by omega)⟩, ⟨fun _ => (by omega), fun _ => rfl⟩, ⟨fun h => (by cases h), fun h => (by omega)⟩,
+        fun mn mx h => (by cases h)⟩
+    · rw [if_neg h2]
+      by_cases h3 : ¬ price.toNat + conf < 2 ^ 64
+      · rw [if_pos h3]
+        refine ⟨⟨fun h => (by cases h), fun h => (by omega)⟩, ⟨fun h => (by cases h), fun h => (by omega)⟩, ⟨fun _ => (by omega), fun _ => rfl⟩,
+          fun mn mx h => (by cases h)⟩
+      · rw [if_neg h3]
+        cases ha : pythValueToDecimal (price.toNat - conf) e t q with
+        | error x =>
+          simp only [liftPyth]
+          refine ⟨⟨fun h => (by cases h), fun h => (by omega)⟩, ⟨fun h => (by cases h), fun h => (by omega)⟩,
+            ⟨fun h => (by cases h), fun h => (by omega)⟩, fun mn mx h => (by cases h)⟩
+        | ok mn0 =>
+          simp only [liftPyth]
+          cases hb : pythValueToDecimal (price.toNat + conf) e t q with
+          | error x =>
+            simp only [liftPyth]
+            refine ⟨⟨fun h => (by cases h), fun h => (by omega)⟩, ⟨fun h => (by cases h), fun h => (by omega)⟩,
+              ⟨fun h => (by cases h), fun h => (by omega)⟩, fun mn mx h => (by cases h)⟩
+          | ok mx0 =>
+            simp only [liftPyth]
+            refine ⟨⟨fun h => (by cases h), fun h => (by omega)⟩, ⟨fun h => (by cases h), fun h => (by omega)⟩,
+              ⟨fun h => (by cases h), fun h => (by omega)⟩, fun mn mx h => ?_⟩
+            cases h
+            exact ⟨by omega, by omega, rfl, rfl⟩
+
 /-! ### Non-vacuity (the repo's own examples and boundary cases) -/
 example : tryFromPrice 5000000000000000000000 18 8 4 = .ok ⟨50000000, 8⟩ := by decide
 example : tryFromPrice 177347 10 5 9 = .ok ⟨17734, 6⟩ := by decide          -- truncation, d > t, q < d
@@ -339,5 +385,12 @@ theorem ok_downward_closed {p p' d t q : Nat} {r' : Decimal} (hp : p ≤ p')
   exact ⟨_, rfl⟩
 example : ∃ r, tryFromPrice 177347 10 5 9 = .ok r :=
   ok_downward_closed (p' := 177350) (r' := ⟨17735, 6⟩) (by decide) (by decide)
+
+-- `pyth_confidence_errors`: confidence = price − 1, price, price + 1, price 0 with confidence > 0, success
+example : pythWithConfidence 6000012345678 12345678 (-8) 8 2 = .ok (⟨6000000, 10⟩, ⟨6000024, 10⟩) := by decide
+example : pythWithConfidence 5 5 0 0 0 = .ok (⟨0, 20⟩, ⟨10, 20⟩) ∧ pythWithConfidence 5 4 0 0 0 = .ok (⟨1, 20⟩, ⟨9, 20⟩) := by decide
+example : pythWithConfidence 5 6 0 0 0 = .error .minPrice ∧ pythWithConfidence 0 1 0 0 0 = .error .minPrice := by decide
+example : pythWithConfidence (-1) 0 0 0 0 = .error .midPrice ∧ pythWithConfidence (2 ^ 63 - 1) (2 ^ 63 + 1) 0 0 0 = .error .minPrice ∧
+    pythWithConfidence (2 ^ 63 - 1) (2 ^ 63 - 1) 0 0 0 = .error (.value .converting) := by decide
 
 end Gmx.C26
